@@ -189,7 +189,7 @@ CHECKS = {
                   'vs. the operational column arithmetic of checkExprsIn / if-conditions / globs / key-value nodes) checked by '
                   'TLC incl. the shift law; every placement vector rendered (validated against yaml.v3) and linted, the '
                   'diagnostic of the class must sit exactly at the predicted position; shift relation on two real outputs',
-        text='61 diagnostic classes x complete TLC placement spaces (indentation, nesting, block/flow, plain/single/double '
+        text='98 diagnostic classes x complete TLC placement spaces (indentation, nesting, block/flow, plain/single/double '
              'quoting, prefix text, earlier placeholders, inserted characters/lines): 19 k (quick) / 175 k (thorough) real '
              'lints with TLC-predicted (line, column); bounds 1 <= line <= #lines, col >= 1 on every diagnostic and on 195 testdata files.',
         note='one-line ASCII constructs without escape sequences only (as the property says); lexer EOF class excluded; one '
@@ -234,7 +234,7 @@ CHECKS = {
                   'bisection of failing batches; seeded byte-level driver whose records TLC validates (RobustTrace.tla)',
         text='TLA+/TLC decide that the design handles every (position, kind, tag) combination and that the scan loop '
              'terminates, and generate that product exhaustively; whether the Go code panics or hangs on an input is decided '
-             'by executing it (62 k vectors + 20 k random records in quick, 1.28 M evaluations in thorough). Level exploration: '
+             'by executing it (about 125 k executions + 20 k random records in quick, about 1.5 M evaluations in thorough). Level exploration: '
              'byte strings far from any schema-derived document are reached only by the random driver.',
         note='per-input limit 2 s wall (a hang is confirmed by three runs alone and a 240 s run); one slow-but-terminating '
              'input class (quadratic snippet output for 8 k errors on one 57 KB line) is recorded as a note'),
